@@ -21,7 +21,7 @@ EXPLANATION = (
     "cleaned up.  "
     "Children are assumed to satisfy the same contract (induction over parser construction); the "
     "error type's own laws (default is soft, to_fatal is fatal, is_soft = !is_fatal) are checked on "
-    "every variant of the workspace's ParserErrorTrait implementor.")
+    "every variant of the workspace's ParserErrorTrait implementor.  (L) the combinators documented to undo by themselves (sequence-with-undo, optional surround) return the possibly soft error of a child that was not the first one parsed only after set_position(entry): children such as and_then / flatten are documented not to rewind, so the induction hypothesis does not cover them.")
 NOT_DECIDED = [
     "choice returns the *first* successful alternative; repetition returns the *maximal* run; "
     "delimited lists reject exactly a trailing delimiter (functional behaviour of each combinator)",
@@ -87,7 +87,8 @@ def check_unit(ctx, rule, unit_name, fn, results, eng, table, is_fatal_fn):
     may_upgrade = unit_name in table["may_upgrade_soft_child_error"]
     ext_ok = unit_name in table["external_result_without_rewind"]
     rewind_ok = unit_name in table["rewinds_on_success"]
-    viol = {"S": [], "F": [], "S'": [], "M": [], "B": [], "R": []}
+    viol = {"S": [], "F": [], "S'": [], "M": [], "B": [], "R": [], "L": []}
+    l_paths = 0
     n_cut = 0
     n_paths = 0
     for v, ts in results:
@@ -123,6 +124,14 @@ def check_unit(ctx, rule, unit_name, fn, results, eng, table, is_fatal_fn):
             viol["S"].append("returns the result of user code after consuming input without restoring the position")
         if kind == "unknown" and ts["pos"] != tsm.ENTRY and not ext_ok:
             viol["S"].append("returns a value the analysis cannot classify after consuming input")
+        # L: the soft failure of a later child is returned only after the position was put back
+        if kind == "err" and soft != tsm.FATAL and children and e[0] == "errobj" and origin_root(ts, e[1]) == children[-1] \
+                and ts.get("parsed", 0) > 1:
+            l_paths += 1
+            if ts.get("later_child_failed") is not None:
+                viol["L"].append("returns the possibly soft error of a child that was not the first one parsed (line %s) "
+                                 "without set_position(entry) in between: when that child is one that does not rewind by "
+                                 "itself (and_then, flatten) the input stays moved" % ts["later_child_failed"])
         # F
         for c in children:
             cs = ts["soft"].get(c, tsm.UNKNOWN)
@@ -154,8 +163,12 @@ def check_unit(ctx, rule, unit_name, fn, results, eng, table, is_fatal_fn):
         # B
         if kind == "ok" and ts["rewound"] and ts["pos"] == tsm.ENTRY and not rewind_ok:
             viol["B"].append("returns Ok after rewinding the input")
+    if unit_name in table.get("restores_after_later_child", {}) and not l_paths:
+        raise CheckError("%s: no path returns the soft error of a later child (clause L has nothing to check)" % unit_name)
     for clause, msgs in viol.items():
         if clause == "R" and unit_name not in table.get("restores_before_retry", {}):
+            continue
+        if clause == "L" and unit_name not in table.get("restores_after_later_child", {}):
             continue
         key = "%s:%s:%s" % (rule, unit_name, clause)
         if msgs:
